@@ -39,7 +39,7 @@ def _name(rng, lo=1, hi=60):
     while True:
         s = "".join(rng.choice(NAMECH) for _ in range(n))
         if s[0] not in "-" and not s.startswith("no-"):
-            return s.encode()
+            return s.encode("latin-1")
 
 
 def _word(rng, braces=False):
@@ -50,6 +50,9 @@ def _word(rng, braces=False):
     w = "".join(rng.choice(ch) for _ in range(n))
     if braces and rng.random() < 0.3:
         w = rng.choice(["{{", "}}", "{}", "{{x}}", "$&"]) + w
+    if not braces and rng.random() < 0.08:
+        # bytes >= 0x80 (UTF-8 and Latin-1 text; latin-1 decoding keeps one character per byte)
+        w = rng.choice(["Gr\xc3\xb6\xc3\x9fe", "d\xc3\xa9tail", "\xe4\xf6\xfc", "na\xefve", "\x80\xff", "\xe2\x80\x94"]) + w[:5]
     return w
 
 
@@ -63,7 +66,7 @@ def _decl(rng):
             if gn not in gnames and gn != b"__default":
                 gnames.add(gn)
                 break
-        gd = " ".join(_word(rng)[:12] for _ in range(rng.choice([0, 2, 4, 12, 30]))).encode() if rng.random() < 0.6 else b""
+        gd = " ".join(_word(rng)[:12] for _ in range(rng.choice([0, 2, 4, 12, 30]))).encode("latin-1") if rng.random() < 0.6 else b""
         groups.append((gn, gd[:rng.choice([60, 80, 81, 200])].strip()))
     n = rng.choice([0, 1, 2, 3, 5, 8, 12]) if rng.random() < 0.97 else rng.choice([17, 40, 100, 260])
     names = set()
@@ -79,34 +82,34 @@ def _decl(rng):
                 names.add(nm)
                 break
         kind = rng.choice("omt")
-        short = letters[i].encode() if i < len(letters) and rng.random() < 0.6 else None
+        short = letters[i].encode("latin-1") if i < len(letters) and rng.random() < 0.6 else None
         desc = " ".join(_word(rng) for _ in range(rng.choice([0, 1, 3, 8, 20, 60] if rng.random() < 0.98 else
-                                                             [300, 1000]))).encode()
+                                                             [300, 1000]))).encode("latin-1")
         env = ("ENV_" + "".join(rng.choice("ABCDEFGHIJ_") for _ in range(
-            rng.randint(1, 30) if rng.random() < 0.9 else rng.choice([59, 60, 61, 124, 250, 252, 253, 300, 1000])))).encode() \
+            rng.randint(1, 30) if rng.random() < 0.9 else rng.choice([59, 60, 61, 124, 250, 252, 253, 300, 1000])))).encode("latin-1") \
             if rng.random() < 0.4 else None
         grp = rng.randrange(ng) if ng and rng.random() < 0.6 else None
-        mv = _word(rng)[:50].encode() if rng.random() < 0.4 else None
+        mv = _word(rng)[:50].encode("latin-1") if rng.random() < 0.4 else None
         if kind == "t":
             o = optgen.T(nm, short, rev=rng.random() < 0.5, default=rng.choice([None, 0, 1, 1, 2, 3, -1]), env=env,
                          group=grp, desc=desc)
         elif kind == "o":
-            o = optgen.O(nm, short, default=_word(rng, True)[:50].encode() if rng.random() < 0.5 else None,
+            o = optgen.O(nm, short, default=_word(rng, True)[:50].encode("latin-1") if rng.random() < 0.5 else None,
                          env=env, group=grp, desc=desc, metavar=mv)
         else:
-            dv = [_word(rng, True)[:20].encode() for _ in range(rng.randint(0, 3))] if rng.random() < 0.5 else None
+            dv = [_word(rng, True)[:20].encode("latin-1") for _ in range(rng.randint(0, 3))] if rng.random() < 0.5 else None
             o = optgen.M(nm, short, default=dv, env=env, group=grp, desc=desc, metavar=mv)
         opts.append(o)
     d = optgen.D(opts, pos=rng.choice([None, None, 2, "inf"]), greedy=False)
     d["app"] = _name(rng, 1, rng.choice([8, 8, 30, 75]))
     if rng.random() < 0.5:
-        d["about"] = " ".join(_word(rng)[:10] for _ in range(rng.choice([1, 3, 5, 20]))).encode()[:rng.choice([60, 200])].strip()
+        d["about"] = " ".join(_word(rng)[:10] for _ in range(rng.choice([1, 3, 5, 20]))).encode("latin-1")[:rng.choice([60, 200])].strip()
     if rng.random() < 0.3:
         d["group_name"] = _name(rng, 1, 20)
         d.setdefault("about", b"")
     d["groups"] = groups
     if d["pos"] is not None and rng.random() < 0.5:
-        d["pos_metavar"] = _word(rng)[:20].encode()
+        d["pos_metavar"] = _word(rng)[:20].encode("latin-1")
     return d
 
 
@@ -115,7 +118,7 @@ def gen(tier, seed, chunk, nch):
     cases = []
     for _ in range((3000 if tier == "quick" else 100000) // nch):
         d = _decl(rng)
-        prefix = "".join(rng.choice(WORDCH + " \n") for _ in range(rng.choice([1, 5, 30, 200]))).encode()
+        prefix = "".join(rng.choice(WORDCH + " \n") for _ in range(rng.choice([1, 5, 30, 200]))).encode("latin-1")
         if len(d["opts"]) >= 2 and rng.random() < 0.3:
             # the text is asked for (and parsing attempted) while the declaration is still incomplete; the final
             # text must list everything all the same
@@ -136,53 +139,53 @@ def script(cid, case):
 
 # ---------------------------------------------------------------------------------------
 def _mv(o):
-    return (o.get("metavar") or b"ARG").decode()
+    return (o.get("metavar") or b"ARG").decode("latin-1")
 
 
 def expected(decl):
-    app = decl.get("app", b"prog").decode()
+    app = decl.get("app", b"prog").decode("latin-1")
     opts = decl["opts"]
     syn = []
-    letters = sorted(o["short"].decode() for o in opts if o["kind"] == "t" and o.get("short"))
+    letters = sorted(o["short"].decode("latin-1") for o in opts if o["kind"] == "t" and o.get("short"))
     if letters:
         syn.append("[-" + "".join(letters) + "]")
     for o in opts:
         if o["kind"] == "t" and (not o.get("short") or o.get("rev")):
-            syn.append("[--%s%s]" % ("[no-]" if o.get("rev") else "", o["name"].decode()))
+            syn.append("[--%s%s]" % ("[no-]" if o.get("rev") else "", o["name"].decode("latin-1")))
     for kind in "om":
         for o in sorted((o for o in opts if o["kind"] == kind), key=lambda o: o["name"]):
-            n, m = o["name"].decode(), _mv(o)
+            n, m = o["name"].decode("latin-1"), _mv(o)
             if o.get("short"):
-                syn += ["[-%s <%s>" % (o["short"].decode(), m), "|", "--%s <%s>]" % (n, m)]
+                syn += ["[-%s <%s>" % (o["short"].decode("latin-1"), m), "|", "--%s <%s>]" % (n, m)]
             else:
                 syn.append("[--%s <%s>]" % (n, m))
     if decl.get("pos"):
-        pm = (decl.get("pos_metavar") or b"args").decode()
+        pm = (decl.get("pos_metavar") or b"args").decode("latin-1")
         syn += ["[" + pm, "...]"]
-    groups = [(None, (decl.get("group_name") or b"arguments").decode(), "")]
+    groups = [(None, (decl.get("group_name") or b"arguments").decode("latin-1"), "")]
     for gi, g in enumerate(decl.get("groups", [])):
-        groups.append((gi, g[0].decode(), g[1].decode()))
+        groups.append((gi, g[0].decode("latin-1"), g[1].decode("latin-1")))
     sections = []
     for gi, gname, gdesc in groups:
         entries = []
         for o in opts:
             if o.get("group") != gi:
                 continue
-            n = o["name"].decode()
+            n = o["name"].decode("latin-1")
             if o["kind"] == "t":
                 long = "--[no-]" + n if o.get("rev") else "--" + n
                 tail = ""
             else:
                 long = "--" + n
                 tail = " " + _mv(o)
-            prefix = "  " + ("-%s, " % o["short"].decode() if o.get("short") else "") + long + tail
-            words = o.get("desc", b"").decode().split()
+            prefix = "  " + ("-%s, " % o["short"].decode("latin-1") if o.get("short") else "") + long + tail
+            words = o.get("desc", b"").decode("latin-1").split()
             if o.get("env"):
-                words += ("Can be set using the environment variable '%s'." % o["env"].decode()).split()
+                words += ("Can be set using the environment variable '%s'." % o["env"].decode("latin-1")).split()
             if o["kind"] == "o" and o.get("default") is not None:
-                words += ("(default: %s)" % o["default"].decode()).split()
+                words += ("(default: %s)" % o["default"].decode("latin-1")).split()
             elif o["kind"] == "m" and o.get("default") is not None:
-                words += ("(default: %s)" % ", ".join(x.decode() for x in o["default"] if x)).split()
+                words += ("(default: %s)" % ", ".join(x.decode("latin-1") for x in o["default"] if x)).split()
             elif o["kind"] == "t" and o.get("rev"):
                 words += ["(default:", "enabled)" if o.get("default") else "disabled)"]
             entries.append((prefix, words, n))
@@ -215,7 +218,7 @@ def check_text(decl, text):
     app, syn, sections = expected(decl)
     problems = []
     try:
-        t = text.decode("ascii")
+        t = text.decode("latin-1")
     except UnicodeDecodeError:
         return [("text:not-ascii", "usage text contains bytes the declaration does not")]
     lines = t.split("\n")
@@ -261,7 +264,7 @@ def check_text(decl, text):
 
     if not expect("", "after-synopsis"):
         return problems
-    about = (decl.get("about") or b"").decode()
+    about = (decl.get("about") or b"").decode("latin-1")
     if about:
         if not expect(about, "about") or not expect("", "about"):
             return problems
@@ -349,7 +352,7 @@ def evaluate(case, lines, S):
     for key, msg in probs[:2]:
         S.violation(key, msg + "\n--- text ---\n" + texts[0].decode("latin-1")[:1500], case)
     if not probs and len(S.samples) < 2 and 2 <= len(d["opts"]) <= 3 and nl < 14:
-        S.samples.append({"options": [o["name"].decode() for o in d["opts"]],
+        S.samples.append({"options": [o["name"].decode("latin-1") for o in d["opts"]],
                           "text": texts[0].decode("latin-1")})
 
 
